@@ -29,16 +29,16 @@ FUNCTIONS = [(PRED, "merge_args_and_kwargs"), (PRED, "get_function_argument_name
              (PRED, "Symbol.__new__"), (PRED, "update_cache"), (PRED, "HasType.__call__"),
              (SYM, "_any_of_the_kwargs_is_a_variable"),
              (SYM, "Variable._instantiate_using_child_vars_and_yield_results_"),
-             (SYM, "Variable._generate_combinations_for_child_vars_values_"),
+             (SYM, "Variable._generate_combinations_for_child_vars_values_"), (SYM, "Variable._child_vars_combinations_from_"),
              (SYM, "Variable._process_output_and_update_values_")]
 ASSUMPTIONS = [
     "inspect.signature(f).parameters lists the parameters of f in declaration order; for a dataclass without explicit "
     "__init__ that is self followed by the init fields in dataclass order",
     "zip stops at the shorter argument; dict comprehension / dict.update have Python semantics",
-    "itertools.product over the child streams is their Cartesian product (generate_combinations contract)",
+    "argument streams are abstract streams of any length (loop rule); their elements extend the bindings they were evaluated under",
     "user functions and predicates are opaque: their result is an arbitrary value whose truth value is arbitrary",
 ]
-TRUSTED = ["assumed contract of inspect.signature and itertools.product"]
+TRUSTED = ["assumed contract of inspect.signature"]
 BOUNDED_ONLY_CLAUSES = ["arity is enumerated for 0..3 parameters (values are symbolic/opaque, shapes are exhaustive up to that arity)"]
 
 SYNTH = '''
@@ -306,33 +306,27 @@ def h_instantiate(kind, n_children):
         children = {k: vm.alloc(Var, {"_id_": 10 + i}, tag=f"child-{k}") for i, k in enumerate(names)}
         sources = make_dict([(99, vm.alloc(HV, {"value": UserVal("outer"), "id_": 99}))])
         child_calls = []
+        combo = {}
+        src_id = 99
 
         def child_eval(it, a, k):
             selfo = a[0]
-            if selfo.tag and selfo.tag.startswith("child-"):
-                child_calls.append((selfo, a[1] if len(a) > 1 else k.get("sources")))
-                return ("child-stream", selfo)
-            return INLINE
-        vm.spec.stubs["Variable._evaluate__"] = child_eval
-        combo = {}
-
-        def gen_comb(it, a, k):
-            d = a[0]
-            ok = isinstance(d, PyDict) and [kk for kk, _ in dict_items(d)] == names and all(
-                isinstance(v, tuple) and v[0] == "child-stream" and v[1] is children[kk] for kk, v in dict_items(d))
-            ctx.check("Variable._generate_combinations_for_child_vars_values_::one-stream-per-child-keyed-by-parameter-name",
-                      z3.BoolVal(ok and all(s is sources for _, s in child_calls)), detail=repr(d))
+            if not (selfo.tag and selfo.tag.startswith("child-")):
+                return INLINE
+            src = a[1] if len(a) > 1 else k.get("sources")
+            kk = selfo.tag[len("child-"):]
+            child_calls.append((kk, src))
 
             def elem(it2, idx):
-                out = []
-                for kk in names:
-                    hv = it2.alloc(HV, {"value": UserVal(f"val_{kk}"), "id_": 500 + len(out)})
-                    b = make_dict([(99, dict_items(sources)[0][1]), (children[kk].fields["_id_"], hv)])
-                    combo[kk] = hv
-                    out.append((kk, it2.alloc(OR, {"bindings": b, "is_false": False, "operand": children[kk]})))
-                return make_dict(out)
-            return SymStream("combinations", elem, length=ctx.fresh_int("n_comb"), meta={"kind": "generator"})
-        vm.spec.stubs["krrood.entity_query_language.utils:generate_combinations"] = gen_comb
+                hv = it2.alloc(HV, {"value": UserVal(f"val_{kk}"), "id_": 500 + len(combo)})
+                b = make_dict(dict_items(src) + [(selfo.fields["_id_"], hv)])
+                combo[kk] = hv
+                return it2.alloc(OR, {"bindings": b, "is_false": False, "operand": selfo})
+            return SymStream(f"stream-{kk}", elem, length=ctx.fresh_int(f"n_{kk}"), meta={"kind": "generator"})
+        vm.spec.stubs["Variable._evaluate__"] = child_eval
+        # the argument streams are contract stubs: the by-name call graph behind `_evaluate__` (which reaches code that assigns
+        # result.bindings elsewhere) is not executed in these loops
+        vm.spec.havoc_exclude = {"bindings", "_eval_parent_", "_is_false_"}
         if kind == "function":
             typ = UserFn("pred", names)
             ptype = vm._getattr(cls(vm, "krrood.entity_query_language.enums", "PredicateType"), "DecoratedMethod")
@@ -380,6 +374,11 @@ def h_instantiate(kind, n_children):
                           z3.BoolVal(False) if t is None else (z3.BoolVal(isf) if isinstance(isf, bool) else isf.t) == z3.Not(t))
             b = res.fields["bindings"]
             ok_b = all(b.vals.get(key_of(children[k].fields["_id_"])) is combo[k] for k in names) and key_of(99) in b.vals
+            # every argument is evaluated under the bindings of the previous ones, the first under the incoming bindings
+            ok_thread = [kk for kk, _ in child_calls[:len(names)]] == names and child_calls[0][1] is sources and all(
+                key_of(children[names[i - 1]].fields["_id_"]) in child_calls[i][1].vals for i in range(1, len(names)))
+            ctx.check("Variable._generate_combinations_for_child_vars_values_::arguments-are-evaluated-under-the-bindings-of-the-previous-ones",
+                      z3.BoolVal(bool(ok_thread)), detail=repr([(kk, s_) for kk, s_ in child_calls]))
             ctx.check("Variable._instantiate::child-and-outer-bindings-kept", z3.BoolVal(ok_b), detail=repr(b))
             ctx.check("Variable._instantiate::operand-is-self", z3.BoolVal(res.fields["operand"] is me))
         ctx.check("Variable._instantiate::one-result-per-combination", z3.BoolVal(count <= 1))
